@@ -39,6 +39,7 @@ var (
 	mapNoKeyRe         = regexp.MustCompile(`\bmap[ \t]*\[[ \t]*\]`)
 	containsRe         = regexp.MustCompile(`\b(not[ \t]+)?contains\b`)
 	couldBeContainerRe = regexp.MustCompile("[\\[\"`']|\\b(map|string|macro|render|itea|html|css|js|json|markdown|func|chan|interface|struct|import|extends)\\b")
+	juxtaposedRe       = regexp.MustCompile(`\}[ \t\n]*\{`)
 	elseRe             = regexp.MustCompile(`\{%[ \t\n]*else[ \t\n]*%\}|\belse\b`)
 )
 
@@ -87,6 +88,13 @@ var findingClasses = []findingClass{
 			return nil, false
 		}
 		return containsRe.ReplaceAll(src, []byte("==")), true
+	}},
+	{"composite-literal-juxtaposed-panics", func(src []byte) ([]byte, bool) {
+		// `{…} {…}`: a composite literal without type directly followed by another brace; with a comma between them
+		if !juxtaposedRe.Match(src) {
+			return nil, false
+		}
+		return juxtaposedRe.ReplaceAll(src, []byte("},{")), true
 	}},
 	{"duplicate-else-panics", func(src []byte) ([]byte, bool) {
 		locs := elseRe.FindAllIndex(src, -1)
